@@ -403,7 +403,7 @@ pub fn run(tier: Tier) -> Report {
         Cfg { v6: false, read_only: true, contacts: vec![Beh::Responsive], nodes: vec![0], routers: vec![], bad_routers: vec![], twin_ids: false, waiters: vec![0, 2_000], horizon_ms: 700_000, latency: 20, rng_seed: seed },
         Cfg { v6: false, read_only: true, contacts: vec![Beh::Responsive, Beh::Silent, Beh::Responsive], nodes: vec![0, 1, 2], routers: vec![], bad_routers: vec![], twin_ids: false, waiters: vec![0], horizon_ms: 700_000, latency: 20, rng_seed: seed },
     ];
-    for cfg in picks.iter().take(tier.pick(1, 2)) {
+    for cfg in picks.iter().take(tier.pick(2, 2)) {
         let run_one = |prefix: &[usize]| -> RunOutcome {
             let (mut sc, peers) = build(cfg);
             sc.fates = fs.clone();
